@@ -459,7 +459,7 @@ def gen_oracle_form(rng):
                     choices.insert(choices.index(anchor) if anchor is not None else max(i2 for i2, r2 in enumerate(choices) if r2["list_name"] == ln) + 1, own)
                 own_other_done.add(ln)
             if variant == "search":
-                row["appearance"] = "search('fruits')"
+                row["appearance"] = rng.choice(["search('fruits')", "search('fruits')", "minimal search('fruits')", "quick search('fruits', 'matches', 'name', 'x')", "search('f')"])
         elif variant == "file":
             f = rng.choice(["cities", "fruits", "geo"]) + rng.choice([".csv", ".xml", ".geojson"])
             row["type"] = f"select_one_from_file {f}"
